@@ -147,4 +147,44 @@ def handle (id : Nat) (hdr : List Sexp) (body : List Sexp) : String :=
     -- fail closed: a case line the driver cannot read is not "spec ok"
     s!"R {id} CORR=diff SPEC=fail:unparsable-case SPECM=fail:unparsable-case | unparsable case"
 
+/-! ### family `decoratorsNwr`: DIRECT EXPECTATION, no theorem speaks about it
+
+  `acached_per_instance` (tools.py:216-221) keys its cache by `id(self)` and relies on the callback of
+  `weakref.ref(self, ...)` to drop the entry when the instance dies.  An instance that cannot be weakly referenced (a
+  class with `__slots__` and no `__weakref__`) is REFUSED: `weakref.ref` raises TypeError before anything runs, in every
+  calling convention alike - the conventions agree, no body is entered.  The model has no notion of weak references, so
+  these cases are judged here: the code as it is = every convention that is run ends in TypeError with an empty log
+  (`nwrReport`, what CORR compares with); the PROPERTY accepts that report and also the ordinary reference report (a
+  library that made such instances work would have to run the body with the bound instance, every way alike) - and
+  nothing else: a convention that answers without entering the body, or with another body / receiver, fails. -/
+
+def nwrObs (o : Obs) : Obs :=
+  if o.out == .raised .skipped then o else ⟨o.cv, [], .raised .typeError, false⟩
+
+def nwrReport (r : Report) : Report := { r with obs := r.obs.map nwrObs }
+
+def nwrClause (c : XCase) (r : Report) : String :=
+  if !supported c.base.cell.kind c.base.cell.ft c.base.cell.acc then "unsupported-cell"
+  else if !c.ovrOk then "unsupported-override"
+  else if (reportClause (nwrReport (refReportX c)) r).isNone then "ok"
+  else match reportClause (refReportX c) r with
+    | none => "ok"
+    | some cl => "slots-instance:" ++ cl
+
+def handleNwr (id : Nat) (hdr : List Sexp) (body : List Sexp) : String :=
+  match xcase? hdr, report? body with
+  | some c, some impl =>
+    let model := nwrReport (modelReportX c)
+    let corr := model == impl
+    let spec := nwrClause c impl
+    let specm := nwrClause c model
+    let cs := if corr then "ok" else "diff"
+    let d := if corr then "" else (describe model impl).replace "\n" " "
+    let f (s : String) := if s == "ok" then "ok" else "fail:" ++ s
+    s!"R {id} CORR={cs} SPEC={f spec} SPECM={f specm} | {d}"
+  | some _, none =>
+    s!"R {id} CORR=diff SPEC=fail:unparsable-observation SPECM=ok | the observations of the implementation are outside the vocabulary"
+  | _, _ =>
+    s!"R {id} CORR=diff SPEC=fail:unparsable-case SPECM=fail:unparsable-case | unparsable case"
+
 end AsynqModel.Drv.Decorators
